@@ -48,7 +48,11 @@ func (st *CompatibleSet[T]) add(ht Hint, v T) error {
 		return errors.WithMessage(err, "add to CompatibleSet")
 	}
 
-	st.cacheSet(ht.String(), [2]interface{}{ht, v})
+	// NOTE the set may keep the already added higher version; cached lookups
+	// are outdated
+	if st.cache != nil {
+		st.cache.Purge()
+	}
 
 	switch eht, found := st.typeheadhints[ht.Type()]; {
 	case !found:
